@@ -141,14 +141,16 @@ claim("C01",
       "Lean 4 proof (partial: scanner arithmetic, recovery-loop progress) + isolated-worker totality and scaling runs")
 
 claim("C14",
-      "PARTIAL proof. Lean 4 theorems decode_escBody / decode_escQuote (for EVERY string, the text written by escape_html_body / escape_html_quote is decoded by the entity "
-      "scanner back to the same string, whatever other references the tables know) and escBody_safe / escQuote_safe (the escaped text cannot open a tag or close its attribute); "
-      "models of both escapers and of parse_next_entity tied by differential runs. Oracle: print(parse(t)) is a fixpoint after one round, gets no new diagnostic above Note, and its "
-      "generated code renders and updates exactly like the original under the real runtime — over generated templates, mutated ones, every operator pair x operand position of "
-      "the expression grammar as a binding, hand-written delicate shapes, and with scope-name mangling.",
-      "Trusted: Lean kernel; axioms ⊆ {propext, Classical.choice, Quot.sound}; differential ties; WHATWG entity table from python; node runner. The expression printer "
-      "(parenthesisation by level), mixture splitting, the {{ protection and scope mangling are covered by the oracle only.",
-      "Lean 4 proof (escape/decode round trip for all strings) + round-trip behaviour oracle under the real runtime")
+      "PARTIAL proof. Lean 4 theorem str_derives (mutual structural recursion over the expression AST): for every expression, every accepted level, the tokens printed by "
+      "the model of expression_strigify_write derive exactly that expression in the WXML expression grammar whose precedence levels are the parser's own (parse_left_to_right! "
+      "chain re-extracted each run, parse_chain_matches_wLevel; operator texts / operand levels of every arm re-extracted, unArm_ok / binArm_ok / condArm_ok): "
+      "parenthesisation by ExpressionLevel is sufficient for every nesting. decode_escBody / decode_escQuote (for EVERY string, the text written by the escapers decodes "
+      "back to it), escBody_safe / escQuote_safe. Models of the expression printer, both escapers and parse_next_entity tied by differential runs. Oracle: print(parse(t)) is a "
+      "fixpoint after one round, gets no new diagnostic above Note, and its generated code renders and updates exactly like the original under the real runtime — over "
+      "generated templates, mutated ones, every operator pair x operand position as a binding under four association-separating environments, delicate shapes, and mangling.",
+      "Trusted: Lean kernel; axioms ⊆ {propext, Classical.choice, Quot.sound}; extractors; differential ties; WHATWG entity table from python; node runner. Not proved: that the "
+      "parser inverts the grammar (oracle: parser tree == intended tree), mixture splitting, the {{ protection, the tag/attribute printer, scope mangling (oracle only).",
+      "Lean 4 proof (printed expression derives its tree in the parser's grammar; escape/decode round trip) + round-trip behaviour oracle under the real runtime")
 claim("C15",
       "PARTIAL proof. Lean 4 obligations re-checked against tables extracted each run: levels_as_documented (ParseErrorKind::level equals the documented table), "
       "structural_defects_reach_documented_level, prevent_success_iff, and the position discipline (position_shapes, try_parse_restores + skipBytes_eq_advance / advance_spec / "
